@@ -554,7 +554,8 @@ var (
 	// tab and a leading brace once parsed
 	labelVocab = []string{"lbl", "lbl", "a b", "a&b=c", "50%", "a+b", "tag#1", "é",
 		`a\\b`, `q\"r`, `l\nf`, `t\tb`, `\u007bz`,
-		`b\u0007l`, `u\u001fs`, `d\u007fl`, `p\udb40\udc01e`} // bell, unit separator, DEL, a non-printable rune above the BMP
+		`b\u0007l`, `u\u001fs`, `d\u007fl`, `p\udb40\udc01e`,
+		`\u0020lead`, `trail\u0020`, `\u00a0nb`, `\u0020`} // bell, unit separator, DEL, a non-printable rune above the BMP
 	pageVocab   = []string{"2", "2", "10", "x y", "a&b", "1+1"}
 	filterVocab = []string{
 		`{"f":"x","o":"=","v":"a"}`,
